@@ -5,6 +5,7 @@
 #include "hmac_cpp/hmac_utils.hpp"
 #include "hmac_cpp/encoding.hpp"
 #include "hmac_cpp/secret_string.hpp"
+#include <array>
 #include <cerrno>
 #include <ctime>
 using namespace hmac_cpp;
@@ -188,6 +189,100 @@ static std::string run(const std::vector<std::string>& a) {
         FORM("vecchar", ok_bool(is_totp_token_valid(tok, chars_of(k), p, d, ty)));
         FORM("secure", ok_bool(is_totp_token_valid(tok, sk, p, d, ty)));
         FORM("str", ok_bool(is_totp_token_valid(tok, str_of(k), p, d, ty)));
+        return agree_guarded(fs);
+    }
+    if (op == "pbkdf2" || op == "pepper") {
+        bool pep = op == "pepper";
+        Pbkdf2Hash prf = a[1] == "sha1" ? Pbkdf2Hash::Sha1 : a[1] == "sha256" ? Pbkdf2Hash::Sha256 : a[1] == "sha512" ? Pbkdf2Hash::Sha512 : static_cast<Pbkdf2Hash>(atoi(a[1].c_str() + 1));
+        Bytes P = bx(a[2]), S = bx(a[3]), PEP = pep ? bx(a[4]) : Bytes();
+        uint32_t c = (uint32_t)strtoul(a[pep ? 5 : 4].c_str(), 0, 10); size_t dk = (size_t)strtoull(a[pep ? 6 : 5].c_str(), 0, 10);
+        secure_buffer<uint8_t> sP(P.size()), sS(S.size()), sPEP(PEP.size());
+        if (!P.empty()) memcpy(sP.data(), P.data(), P.size()); if (!S.empty()) memcpy(sS.data(), S.data(), S.size());
+        if (!PEP.empty()) memcpy(sPEP.data(), PEP.data(), PEP.size());
+        std::vector<std::pair<std::string, Thunk> > fs;
+        if (pep) {
+            FORM("ptr", "ok " + hx(pbkdf2_with_pepper(P.data(), P.size(), S.data(), S.size(), PEP.data(), PEP.size(), c, dk, prf)));
+            FORM("vec", "ok " + hx(pbkdf2_with_pepper(P, S, PEP, c, dk, prf)));
+            FORM("vecchar", "ok " + hx(pbkdf2_with_pepper(chars_of(P), chars_of(S), chars_of(PEP), c, dk, prf)));
+            FORM("str", "ok " + hx(pbkdf2_with_pepper(str_of(P), str_of(S), str_of(PEP), c, dk, prf)));
+            FORM("secure", "ok " + hx(pbkdf2_with_pepper(sP, sS, sPEP, c, dk, prf)));
+        } else {
+            FORM("ptr", "ok " + hx(pbkdf2(P.data(), P.size(), S.data(), S.size(), c, dk, prf)));
+            FORM("vec", "ok " + hx(pbkdf2(P, S, c, dk, prf)));
+            FORM("vecchar", "ok " + hx(pbkdf2(chars_of(P), chars_of(S), c, dk, prf)));
+            FORM("str", "ok " + hx(pbkdf2(str_of(P), str_of(S), c, dk, prf)));
+            FORM("secure", "ok " + hx(pbkdf2(sP, sS, c, dk, prf)));
+            FORM("locked", ({ auto r = pbkdf2_secure(P.data(), P.size(), S.data(), S.size(), c, dk, prf); "ok " + hx(r.data(), r.size()); }));
+            if (dk <= (1u << 20)) {   // stored-parameter forms: key.size() carries dk_len; salt and iters must be copied through
+                FORM("params-vec", ({ Pbkdf2Result prm; prm.salt = S; prm.iters = c; prm.key.assign(dk, 0xAA); Pbkdf2Result r = pbkdf2(P, prm, prf);
+                                      (r.salt == S && r.iters == c) ? "ok " + hx(r.key) : std::string("PARAMS-NOT-COPIED"); }));
+                FORM("params-str", ({ Pbkdf2Result prm; prm.salt = S; prm.iters = c; prm.key.assign(dk, 0xAA); Pbkdf2Result r = pbkdf2(str_of(P), prm, prf);
+                                      (r.salt == S && r.iters == c) ? "ok " + hx(r.key) : std::string("PARAMS-NOT-COPIED"); }));
+                FORM("params-secure", ({ Pbkdf2Result prm; prm.salt = S; prm.iters = c; prm.key.assign(dk, 0xAA); Pbkdf2Result r = pbkdf2(sP, prm, prf);
+                                      (r.salt == S && r.iters == c) ? "ok " + hx(r.key) : std::string("PARAMS-NOT-COPIED"); }));
+            }
+        }
+        return agree_guarded(fs);
+    }
+    if (op == "pbkdf2buf") {
+        Pbkdf2Hash prf = a[1] == "sha1" ? Pbkdf2Hash::Sha1 : a[1] == "sha256" ? Pbkdf2Hash::Sha256 : a[1] == "sha512" ? Pbkdf2Hash::Sha512 : static_cast<Pbkdf2Hash>(atoi(a[1].c_str() + 1));
+        Bytes P = bx(a[2]), S = bx(a[3]); uint32_t c = (uint32_t)strtoul(a[4].c_str(), 0, 10); size_t dk = (size_t)strtoull(a[5].c_str(), 0, 10);
+        secure_buffer<uint8_t> sP(P.size()), sS(S.size());
+        if (!P.empty()) memcpy(sP.data(), P.data(), P.size()); if (!S.empty()) memcpy(sS.data(), S.data(), S.size());
+        size_t cap = dk <= (1u << 20) ? dk : 64;       // oversized dk_len is rejected before anything is written
+        std::vector<std::pair<std::string, Thunk> > fs;
+#define BUF(name, call) FORM(name, ({ Bytes out(cap + 16, 0xC5); bool ok = call; bool canary = true; for (size_t q = cap; q < cap + 16; ++q) canary = canary && out[q] == 0xC5; \
+            if (!ok) for (size_t q = 0; q < cap; ++q) canary = canary && out[q] == 0xC5; \
+            !canary ? std::string("CANARY-OVERWRITTEN") : ok ? "some " + hx(out.data(), cap) : std::string("none"); }))
+        BUF("ptr", pbkdf2(prf, P.data(), P.size(), S.data(), S.size(), c, out.data(), dk));
+        BUF("secure-ptr", pbkdf2(prf, sP, sS, c, out.data(), dk));
+        if (a[1] == "sha256") {
+            BUF("sha256-ptr", pbkdf2_hmac_sha256(P.data(), P.size(), S.data(), S.size(), c, out.data(), dk));
+            BUF("sha256-secure", pbkdf2_hmac_sha256(sP, sS, c, out.data(), dk));
+        }
+#define ARR(N) if (dk == N) { \
+            FORM("array-str", ({ std::array<uint8_t, N> o; o.fill(0xC5); pbkdf2(prf, str_of(P), str_of(S), c, o) ? "some " + hx(o.data(), N) : std::string("none"); })); \
+            FORM("array-secure", ({ std::array<uint8_t, N> o; o.fill(0xC5); pbkdf2(prf, sP, sS, c, o) ? "some " + hx(o.data(), N) : std::string("none"); })); \
+            if (a[1] == "sha256") { \
+              FORM("sha256-array-str", ({ std::array<uint8_t, N> o; o.fill(0xC5); pbkdf2_hmac_sha256(str_of(P), str_of(S), c, o) ? "some " + hx(o.data(), N) : std::string("none"); })); \
+              FORM("sha256-array-secure", ({ std::array<uint8_t, N> o; o.fill(0xC5); pbkdf2_hmac_sha256(sP, sS, c, o) ? "some " + hx(o.data(), N) : std::string("none"); })); } }
+        ARR(1) ARR(19) ARR(20) ARR(21) ARR(32) ARR(33) ARR(64) ARR(65) ARR(128)
+        return agree_guarded(fs);
+    }
+    if (op == "hkdfx") {
+        Bytes ikm = bx(a[1]); bool nul = a[2] == "null"; Bytes salt = nul ? Bytes() : bx(a[2]);
+        const void* sp = nul ? (const void*)0 : (salt.empty() ? (const void*)"" : (const void*)salt.data());
+        std::vector<std::pair<std::string, Thunk> > fs;
+        FORM("ptr", hx(hkdf_extract_sha256(ikm.data(), ikm.size(), sp, salt.size())));
+        FORM("ptr-secure", ({ auto r = hkdf_extract_sha256_secure(ikm.data(), ikm.size(), sp, salt.size()); hx(r.data(), r.size()); }));
+        FORM("vec", hx(hkdf_extract_sha256(ikm, salt)));
+        FORM("vec-secure", ({ auto r = hkdf_extract_sha256_secure(ikm, salt); hx(r.data(), r.size()); }));
+        FORM("secure-secure", ({ secure_buffer<uint8_t> si(ikm.size()), ss(salt.size()); if (!ikm.empty()) memcpy(si.data(), ikm.data(), ikm.size());
+                                 if (!salt.empty()) memcpy(ss.data(), salt.data(), salt.size()); auto r = hkdf_extract_sha256_secure(si, ss); hx(r.data(), r.size()); }));
+        return agree_guarded(fs);
+    }
+    if (op == "hkdfe") {
+        Bytes prk = bx(a[1]); bool nul = a[2] == "null"; Bytes info = nul ? Bytes() : bx(a[2]); size_t L = (size_t)strtoull(a[3].c_str(), 0, 10);
+        const void* ip = nul ? (const void*)0 : (info.empty() ? (const void*)"" : (const void*)info.data());
+        std::vector<std::pair<std::string, Thunk> > fs;
+        FORM("ptr", "ok " + hx(hkdf_expand_sha256(prk.data(), prk.size(), ip, info.size(), L)));
+        FORM("ptr-secure", ({ auto r = hkdf_expand_sha256_secure(prk.data(), prk.size(), ip, info.size(), L); "ok " + hx(r.data(), r.size()); }));
+        if (!prk.empty()) {   // the vector forms pass data() of an empty vector (null) - same verdict expected, but only when prk is non-empty the pointer is valid
+            FORM("vec", "ok " + hx(hkdf_expand_sha256(prk, info, L)));
+            FORM("vec-secure", ({ auto r = hkdf_expand_sha256_secure(prk, info, L); "ok " + hx(r.data(), r.size()); }));
+            FORM("secure-secure", ({ secure_buffer<uint8_t> sp2(prk.size()), si(info.size()); memcpy(sp2.data(), prk.data(), prk.size());
+                                     if (!info.empty()) memcpy(si.data(), info.data(), info.size()); auto r = hkdf_expand_sha256_secure(sp2, si, L); "ok " + hx(r.data(), r.size()); }));
+        }
+        return agree_guarded(fs);
+    }
+    if (op == "hkdfkiv") {
+        Bytes ikm = bx(a[1]); bool nul = a[2] == "null"; Bytes salt = nul ? Bytes() : bx(a[2]); std::string ctx = str_of(bx(a[3]));
+        const void* sp = nul ? (const void*)0 : (salt.empty() ? (const void*)"" : (const void*)salt.data());
+        std::vector<std::pair<std::string, Thunk> > fs;
+        FORM("ptr", ({ KeyIv r = hkdf_key_iv_256(ikm.data(), ikm.size(), sp, salt.size(), ctx); "ok " + hx(r.key.data(), 32) + " " + hx(r.iv.data(), 12); }));
+        FORM("vec", ({ KeyIv r = hkdf_key_iv_256(ikm, salt, ctx); "ok " + hx(r.key.data(), 32) + " " + hx(r.iv.data(), 12); }));
+        FORM("secure", ({ secure_buffer<uint8_t> si(ikm.size()), ss(salt.size()); if (!ikm.empty()) memcpy(si.data(), ikm.data(), ikm.size());
+                          if (!salt.empty()) memcpy(ss.data(), salt.data(), salt.size()); KeyIv r = hkdf_key_iv_256(si, ss, ctx); "ok " + hx(r.key.data(), 32) + " " + hx(r.iv.data(), 12); }));
         return agree_guarded(fs);
     }
     if (op == "hmac") return hmac_forms(type_of(a[1]), bx(a[2]), bx(a[3]));
